@@ -1036,9 +1036,10 @@ func (g *gen) genPeering() ([]byte, string) {
 	switch g.r.Intn(12) {
 	case 0, 1, 2, 3:
 		p := &pbpeering.Peering{ID: ids[i], Name: names[i], Meta: map[string]string{"a": "1", "b": "2", "c": "3"}}
-		if g.r.Chance(12) {
+		if g.r.Chance(5) {
 			p.Name = names[g.r.Intn(3)] // id/name conflicts
 		}
+		g.make("peering", p.ID)
 		p.State = hx.Pick(g.r, []pbpeering.PeeringState{pbpeering.PeeringState_UNDEFINED, pbpeering.PeeringState_PENDING, pbpeering.PeeringState_ESTABLISHING,
 			pbpeering.PeeringState_ACTIVE, pbpeering.PeeringState_ACTIVE, pbpeering.PeeringState_FAILING, pbpeering.PeeringState_DELETING, pbpeering.PeeringState_TERMINATED})
 		if p.State == pbpeering.PeeringState_DELETING && g.r.Chance(85) {
@@ -1067,7 +1068,7 @@ func (g *gen) genPeering() ([]byte, string) {
 	case 4:
 		return pb(structs.PeeringDeleteType, &pbpeering.PeeringDeleteRequest{Name: names[i]}), "peering:delete"
 	case 5:
-		return pb(structs.PeeringTerminateByIDType, &pbpeering.PeeringTerminateByIDRequest{ID: ids[i]}), "peering:terminate"
+		return pb(structs.PeeringTerminateByIDType, &pbpeering.PeeringTerminateByIDRequest{ID: g.ref("peering", ids)}), "peering:terminate"
 	case 6, 7:
 		tb := &pbpeering.PeeringTrustBundle{TrustDomain: "td" + fmt.Sprint(g.r.Intn(2)) + ".consul", PeerName: names[i], RootPEMs: []string{"pemA", "pemB"}[:1+g.r.Intn(2)], ExportedPartition: "default"}
 		if g.r.Chance(5) {
@@ -1077,7 +1078,7 @@ func (g *gen) genPeering() ([]byte, string) {
 	case 8:
 		return pb(structs.PeeringTrustBundleDeleteType, &pbpeering.PeeringTrustBundleDeleteRequest{Name: names[i]}), "peering:trust-bundle-delete"
 	default:
-		return pb(structs.PeeringSecretsWriteType, g.secretsRequest(ids[i])), "peering:secrets-write"
+		return pb(structs.PeeringSecretsWriteType, g.secretsRequest(g.ref("peering", ids))), "peering:secrets-write"
 	}
 }
 
